@@ -25,7 +25,7 @@ from ..facts import FactFlow, entails
 from ..normalize import inline_helpers
 from ..roles import bits_fn, bits_name
 from ..harness import Harness
-from ..interp import ExcVal, Obj, Raised
+from ..interp import pub, ExcVal, Obj, Raised
 from ..models import ccsds_bytes, make_interp, model_definition, raw_packet, source_externals
 
 PK = "packets.py"
@@ -230,7 +230,7 @@ def final_comparison(ctx: Ctx):
                 warned = []
 
                 def parse_stub(selfv, packet, root_container_name=None, delta=delta):
-                    raw = packet.attrs["raw_data"]
+                    raw = pub(packet, "raw_data")
                     raw.attrs["pos"] = 8 * len(raw) + delta
                     return packet
                 it = make_interp(prog, {"XtcePacketDefinition.parse_ccsds_packet": parse_stub,
@@ -403,7 +403,8 @@ SPEC = PropSpec(
                  "interpreted on model definitions with fixed and length-dependent layouts over packets shorter, "
                  "equal and longer than what the definition consumes, with computed lengths negative / zero / beyond "
                  "the end: clean delivery iff exact consumption, otherwise warning (+withheld) or exception."
-                 ' R14.fresh: consumption is counted from bit 0 of each parse (two packets built from the same raw bytes do not share a cursor).'),
+                 ' R14.fresh: consumption is counted from bit 0 of each parse (two packets built from the same raw bytes do not share a cursor).'
+                 ' R14.3 is taken for every sequence-flag value (a segment parsed on its own is a packet like any other); R14.4 includes a layout that lists one parameter twice.'),
     rule_doc="R14.1 per (advance site, guard kind); R14.2 per writer; R14.3 per option; R14.4 per layout over all packets",
     assumptions=["packet_generator is the only delivery path of parsed packets"],
     controls=controls,
